@@ -1,6 +1,7 @@
 import Litep2pVerif.Proofs.Conn.Loop
 import Litep2pVerif.Proofs.Conn.Permits
 import Litep2pVerif.Proofs.Conn.Established
+import Litep2pVerif.Proofs.Conn.Accept
 /-!
 # C07 — A terminated connection is reported closed to everyone exactly once
 
@@ -446,6 +447,88 @@ example :
     (r.2.1.map fun s => (run s [.loop (.yamuxStream true), .loop (.negotiated (.ok 2))]).ps.log) =
       some [.proto 0 .established, .proto 2 .established, .proto 2 .substreamOpened] := by decide
 
+/-- **Accept: whoever is told "established" is told "closed" exactly once — and an accept is never abandoned midway**
+(model `Model/Conn/Accept.lean` of `TcpTransport::accept`: notify the protocols, then spawn the loop, then resolve;
+driven against the REAL future in the `tcploop` area, `conn .. via=accept`).
+
+`report_connection_established` notifies the protocols concurrently: while it is suspended on a full channel the
+protocols with room HAVE the event (and a strong handle). For every parked connection (any number of protocols, any
+channel capacities) and EVERY schedule `ls` — the future being polled; protocols and the manager popping messages,
+dropping their receivers, using/downgrading/dropping their handles, sending commands; other senders filling the
+channels; and, once the loop exists, every loop event of `tstep`:
+
+1. the future never resolves `Err` (`phase ≠ failed`): in the code as it is, abandoning an accept after some
+   protocols were told is IMPOSSIBLE — `report_connection_established` has no error return, and nothing bounds it;
+   a full channel only delays it (a bound such as a timeout around it would make `failed` reachable with protocols
+   told and no loop to ever tell them "closed");
+2. while it is suspended (`notifying`) it is suspended in exactly that call, and every live protocol it is not
+   waiting for has been told;
+3. as long as the loop has not been spawned nothing has been reported closed and nothing has returned;
+4. nobody is ever told "closed" twice;
+5. once the spawned loop has returned, the body of `report_connection_closed` has run exactly once: every protocol
+   whose receiver exists — in particular every protocol the accept told "established" — has exactly one
+   `ConnectionClosed`, and so has the manager. -/
+theorem accept_established_then_closed (ka : List Bool) (cap mcap : Nat) (ls : List ALabel) :
+    let a := arun (ainit ka cap mcap) ls
+    a.phase ≠ .failed ∧
+    (a.phase = .notifying → ∃ w e, a.t.loop.ps.call = .protoSends .established w e ∧
+      ∀ j, aliveAt a.t.loop.ps j → j ∉ w → Ev.proto j .established ∈ a.t.loop.ps.log) ∧
+    (a.phase ≠ .up → a.t.loop.exited = none ∧ (∀ j, cnt a.t.loop.ps j .closed = 0) ∧ mgrCnt a.t.loop.ps = 0) ∧
+    ((∀ j, cnt a.t.loop.ps j .closed ≤ 1) ∧ mgrCnt a.t.loop.ps ≤ 1) ∧
+    (a.t.loop.exited.isSome → a.phase = .up ∧ a.t.loop.ps.closedRuns = 1 ∧
+      (∀ j, aliveAt a.t.loop.ps j → cnt a.t.loop.ps j .closed = 1) ∧
+      (a.t.loop.ps.mgr.alive = true → mgrCnt a.t.loop.ps = 1)) := by
+  intro a
+  have h : AInv a := arun_inv ls _ (ainit_inv ka cap mcap)
+  cases hp : a.phase with
+  | failed => simp only [AInv, hp] at h
+  | parked =>
+    simp only [AInv, hp] at h
+    obtain ⟨hpre, hidle⟩ := h
+    have hr := (hpre.inv.call.rest_of_quiet (hidle ▸ quiet_idle)).1 hpre.runs
+    refine ⟨by simp, ?_, ?_, ⟨hpre.inv.le, hpre.inv.mle⟩, ?_⟩
+    · intro h; cases h
+    · intro _; exact ⟨hpre.exited, hr.1, hr.2⟩
+    · intro hex; rw [hpre.exited] at hex; cases hex
+  | notifying =>
+    simp only [AInv, hp] at h
+    obtain ⟨hpre, hest, w, e, hc⟩ := h
+    have hci := hpre.inv.call
+    unfold CallInv at hci; rw [hc] at hci
+    have hr := (hci.2.2 (by simp)).1 hpre.runs
+    refine ⟨by simp, ?_, ?_, ⟨hpre.inv.le, hpre.inv.mle⟩, ?_⟩
+    · intro _
+      refine ⟨w, e, hc, ?_⟩
+      unfold EstInv at hest; rw [hc] at hest; exact hest
+    · intro _; exact ⟨hpre.exited, hr.1, hr.2⟩
+    · intro hex; rw [hpre.exited] at hex; cases hex
+  | up =>
+    simp only [AInv, hp] at h
+    have hr := h.reports
+    refine ⟨by simp, ?_, ?_, ⟨hr.1, hr.2.1⟩, ?_⟩
+    · intro h; cases h
+    · intro h; exact absurd rfl h
+    · intro hex
+      have := hr.2.2 hex
+      exact ⟨rfl, this.1, this.2.1, this.2.2⟩
+
+/-- Non-vacuity: two protocols, channels of capacity 1; protocol 0 is busy (its channel is full of somebody else's
+message) when the connection is accepted. The future is suspended waiting for protocol 0 while protocol 1 has been
+told — for as long as protocol 0 stays busy, whatever protocol 1 does with its handle in the meantime. When
+protocol 0 catches up the future resolves `Ok` and the loop exists; the remote closes the connection: both
+protocols, then the manager, are told exactly once. -/
+example :
+    let a1 := arun (ainit [true, true] 1 4) [.t (.fill 0), .call]
+    let a2 := arun a1 [.t (.recv 1), .t (.downgrade 1), .t (.recv 1), .t .recvMgr]
+    let a3 := arun a2 [.t (.recv 0)]
+    let a4 := arun a3 [.t (.recv 0), .t .yamuxEof]
+    a1.phase = .notifying ∧ a1.t.loop.ps.call = .protoSends .established [0] false ∧
+    a1.t.loop.ps.log = [.proto 1 .established] ∧
+    a2.phase = .notifying ∧ a3.phase = .up ∧ a3.t.loop.ps.log = [.proto 1 .established, .proto 0 .established] ∧
+    a4.t.loop.exited = some .ok ∧
+    a4.t.loop.ps.log = [.proto 1 .established, .proto 0 .established, .proto 0 .closed, .proto 1 .closed, .mgr] := by
+  decide
+
 /-- **Dialable again.** When the loop has returned the manager has the close event (if it is still
 running); handling it for the peer's only connection emits `ConnectionClosed` and leaves the peer in
 a state in which `dial` is not refused with `AlreadyConnected` — with no dial pending it is `Ok`, the
@@ -494,5 +577,7 @@ open Litep2pVerif.Props.C07 in
 #print axioms established_survives_dead_protocol
 open Litep2pVerif.Props.C07 in
 #print axioms loop_usable_after_protocol_exit
+open Litep2pVerif.Props.C07 in
+#print axioms accept_established_then_closed
 open Litep2pVerif.Props.C07 in
 #print axioms redial_after_close
